@@ -871,6 +871,14 @@ def feat(schema):
                 f.add("types_empty")
             if has("types"):
                 for t in p.get("types"):
+                    for _ in range(6):                       # look through aliases / forwarding custom types
+                        nm = type(t).__name__
+                        if "TypeAlias" in nm:
+                            t = t.props.type
+                        elif nm == "HookedSchema":
+                            t = t.props.inner
+                        else:
+                            break
                     if type(t).__name__ == "DictSchema" and t.props.get("keys") is not Nil and ... in t.props.get("keys"):
                         f.add("alt_relaxed_dict")
     except Exception:
